@@ -4,6 +4,8 @@ package agent
 
 import (
 	"github.com/postalsys/muti-metroo/internal/exit"
+	"github.com/postalsys/muti-metroo/internal/identity"
+	"github.com/postalsys/muti-metroo/internal/protocol"
 	"github.com/postalsys/muti-metroo/internal/routing"
 )
 
@@ -22,3 +24,19 @@ func (a *Agent) VerifC19Close() {
 	}
 	a.flooder.Stop()
 }
+
+// VerifC19Frame delivers one frame from a peer through the agent's ordinary frame dispatcher
+// (ROUTE_ADVERTISE / ROUTE_WITHDRAW reach the flooder and the routing manager this way).
+func (a *Agent) VerifC19Frame(peerID identity.AgentID, frame *protocol.Frame) { a.processFrame(peerID, frame) }
+
+// VerifC19PeerGone does the route clean-up of Agent.handlePeerDisconnect for peerID.
+func (a *Agent) VerifC19PeerGone(peerID identity.AgentID) {
+	a.cleanupRelaysForPeer(peerID)
+	a.routeMgr.HandlePeerDisconnect(peerID)
+	a.routeMgr.HandlePeerDisconnectDomain(peerID)
+	a.routeMgr.HandlePeerDisconnectForward(peerID)
+	a.routeMgr.HandlePeerDisconnectAgent(peerID)
+}
+
+// VerifC19Stale runs the periodic stale-route clean-up with a zero TTL (every learned route is stale).
+func (a *Agent) VerifC19Stale() int { return a.routeMgr.CleanupStaleRoutes(0) }
